@@ -1109,7 +1109,7 @@ func (ro *RedisOutput) sendCmdsBatch(replayWait usync.WaitCloser, conn client.Re
 	for {
 		transactionBatch := transactionMode
 		shouldUpdateCP := ro.cfg.EnableResumeFromBreakPoint && transactionMode
-		verifhook.Point("sendCmdsBatch.loop", len(cmdQueue), lastOffset, inTransaction)
+		verifhook.Point("sendCmdsBatch.loop", len(cmdQueue), lastOffset, inTransaction, sendBuf)
 		select {
 		case item, ok := <-sendBuf:
 			if !ok {
